@@ -411,7 +411,7 @@ type call struct {
 	V    int // kind of value E is put as (vPlain ...)
 	T    int
 	C    [2]int
-	Wait int // microseconds to idle before the call (concurrent plans); -1 = Gosched
+	Wait int           // microseconds to idle before the call (concurrent plans); -1 = Gosched
 	Sig  chan struct{} // closed once the invocation is logged (held schedules)
 }
 
@@ -1164,7 +1164,6 @@ func runStrand(c *core.Ctx, t *core.Trace, cas int, sc [7]int) (int, error) {
 	}
 	return h.timeouts, nil
 }
-
 
 // ---------------------------------------------------------------- callback-held schedules
 //
